@@ -7,8 +7,9 @@ Block(b) == [k \in 1..8 |-> 8 * b + k - 1]
 Shorts == {<<>>, <<0>>, <<26>>, <<65535>>, <<1, 26, 3>>, <<43981, 10, 171, 2748>>, <<26, 26>>}
 Pci == {[kind |-> "pci", fn |-> f, dev |-> d] : f \in {0, 255}, d \in {0, 31}}
 Acpi == {[kind |-> "acpi", hid |-> h, uid |-> u] : h \in {<<208, 65, 3, 10>>, <<0, 0, 0, 0>>}, u \in {<<0, 0, 0, 0>>, <<255, 255, 255, 255>>}}
-Hd == {[kind |-> "hd", part |-> p, start |-> s, size |-> z, sig |-> "g1", format |-> f, sigtype |-> f] :
-         p \in {1, 128}, s \in {0, 2048}, z \in {1, 1024000}, f \in {1, 2}}
+(* partition format (MBR / GPT / other) and signature type (none / 32-bit / GUID) are independent fields *)
+Hd == {[kind |-> "hd", part |-> p, start |-> s, size |-> z, sig |-> "g1", format |-> f, sigtype |-> st] :
+         p \in {1, 128}, s \in {0, 2048}, z \in {1, 1024000}, f \in {1, 2, 3}, st \in {0, 1, 2}}
 (* long names: a file-path node of 4 + 2(n+1) bytes crosses 256 at n = 125 (node length needs its high byte) *)
 Long(n) == [k \in 1..n |-> 97 + (k % 26)]
 File == {[kind |-> "file", path |-> p] : p \in {<<92, 69, 70, 73>>, <<92>>, <<65, 32, 19968>>, <<128512>>, <<>>, Long(124), Long(125), Long(126), Long(300)}}
